@@ -156,7 +156,7 @@ class XPathToken(Token[ta.XPathTokenType]):
         elif symbol in ('-', '+') and len(self) == 1:
             return symbol + self[0].source
         elif symbol == 'attribute' and self.label == 'kind test':
-            return 'attribute(%s)' % ', '.join(item.source for item in self)
+            return 'attribute(%s)%s' % (', '.join(item.source for item in self), self.occurrence)
         return super(XPathToken, self).source
 
     @property
